@@ -159,9 +159,9 @@ func c14Check(c *vf.Ctx, cs *c14Case) {
 			}
 			return false
 		}
-		alphabet := []int{1, 5, 6, 7, 8, 9}
+		alphabet := []int{1, 2, 4, 5, 6, 7, 8, 9, 12}
 		if cs.Codec == "hevc" {
-			alphabet = []int{1, 19, 20, 21, 32, 33, 34, 39}
+			alphabet = []int{1, 9, 15, 16, 18, 19, 20, 21, 22, 23, 24, 31, 32, 33, 34, 39}
 		}
 		for _, t := range alphabet {
 			var got bool
@@ -240,7 +240,11 @@ func c14Check(c *vf.Ctx, cs *c14Case) {
 			if got := hevc.IsIDRSample(sample); got != (has(19) || has(20)) {
 				fail("IsIDRSample", "IDR test agrees with the unit sequence", fmt.Sprint(got))
 			}
-			if got := hevc.IsRAPSample(sample); got != (has(19) || has(20) || has(21)) {
+			rap := false // IRAP NAL unit types 16..23 (ISO/IEC 23008-2 Table 7-1)
+			for t := 16; t <= 23; t++ {
+				rap = rap || has(t)
+			}
+			if got := hevc.IsRAPSample(sample); got != rap {
 				fail("IsRAPSample", "RAP test agrees with the unit sequence", fmt.Sprint(got))
 			}
 			if got := hevc.HasParameterSets(sample); got != (inPrefix(32) && inPrefix(33) && inPrefix(34)) {
@@ -353,9 +357,9 @@ func runC14(c *vf.Ctx) {
 				})
 			})
 		} else {
-			alphabet := []int{1, 5, 6, 7, 8, 9}
+			alphabet := []int{1, 2, 4, 5, 6, 7, 8, 9, 12}
 			if sh.codec == "hevc" {
-				alphabet = []int{1, 19, 20, 21, 32, 33, 34, 39}
+				alphabet = []int{1, 9, 15, 16, 18, 19, 20, 21, 22, 23, 24, 31, 32, 33, 34, 39}
 			}
 			enum.Tuples(sh.n, len(alphabet), func(t []int) {
 				types := make([]int, sh.n)
